@@ -168,6 +168,27 @@ func (w *_nodeRepr) LookupByString(key string) (datamodel.Node, error) {
 		}
 		return reprNode(v), nil
 	default:
+		if typ, ok := w.schemaType.(*schema.TypeMap); ok {
+			if ktyp, ok := typ.KeyType().(*schema.TypeEnum); ok {
+				// the type level knows an enum key by the member's name
+				if stg, ok := ktyp.RepresentationStrategy().(schema.EnumRepresentation_String); ok {
+					found := false
+					for _, member := range ktyp.Members() {
+						reprKey, renamed := stg[member]
+						if !renamed {
+							reprKey = member
+						}
+						if reprKey == key {
+							key, found = member, true
+							break
+						}
+					}
+					if !found {
+						return nil, datamodel.ErrNotExists{Segment: datamodel.PathSegmentOfString(key)}
+					}
+				}
+			}
+		}
 		v, err := (*_node)(w).LookupByString(key)
 		if err != nil {
 			return nil, err
